@@ -458,6 +458,14 @@ class Gen(Dict[str, List['Mixin']], t.Generic[T]):
     "doc"
 class Three(Mixin, Second, Base):
     "doc"
+from collections import namedtuple
+Point = namedtuple('Point', 'x y')
+"A documented variable that is used as a base class."
+def factory(): pass
+class P(Point, Mixin):
+    "doc"
+class Q(Mixin, factory(), Second):
+    "doc"
 class Outer:
     Key = t.Union[str, bytes]
     class Inner(Dict[Key, int], Mixin):
